@@ -106,14 +106,16 @@ def statement_hashes(pid):
 
 
 def build_harness():
+    """build cmd/corr and cmd/gen from the working tree into a fresh directory and move them into
+    place atomically: a check running concurrently in this directory keeps executing the binary it
+    started with instead of finding it removed; a failed build installs nothing and ends the check
+    (a stale binary is never run: the binaries of the previous build are replaced or the check stops)."""
     os.makedirs(BIN, exist_ok=True)
-    for b in ('corr', 'gen'):
-        try:
-            os.remove(os.path.join(BIN, b))
-        except FileNotFoundError:
-            pass
+    stage = os.path.join(BIN, f'.stage-{os.getpid()}')
+    shutil.rmtree(stage, ignore_errors=True)
+    os.makedirs(stage)
     shutil.copy(os.path.join(REPO, 'go.sum'), os.path.join(HARN, 'go.sum'))
-    cmd = ['go', 'build', '-tags', 'verif', '-o', BIN + '/']
+    cmd = ['go', 'build', '-tags', 'verif', '-o', stage + '/']
     if os.path.realpath(REPO) != '/repo':
         # scratch copies: same module file with the replace directive pointed at VERIF_REPO
         mod = open(os.path.join(HARN, 'go.mod')).read().replace('=> /repo', '=> ' + os.path.realpath(REPO))
@@ -121,6 +123,19 @@ def build_harness():
         shutil.copy(os.path.join(REPO, 'go.sum'), os.path.join(HARN, 'go.scratch.sum'))
         cmd.append('-modfile=go.scratch.mod')
     rc, out = run(cmd + ['./cmd/...'], cwd=HARN, env=GOENV)
+    if rc == 0:
+        for b in ('corr', 'gen'):
+            if not os.path.exists(os.path.join(stage, b)):
+                rc, out = 1, out + f'\nbuild produced no {b}'
+                break
+            os.replace(os.path.join(stage, b), os.path.join(BIN, b))
+    else:
+        for b in ('corr', 'gen'):
+            try:
+                os.remove(os.path.join(BIN, b))
+            except FileNotFoundError:
+                pass
+    shutil.rmtree(stage, ignore_errors=True)
     return rc, out
 
 
